@@ -8,7 +8,7 @@ COMMON_TRUSTED_BASE = [
 
 PROPS = {}
 NOT_CLAIMED = {}
-HOOK_COMMITS = []
+HOOK_COMMITS = ["7ec16b3d"]
 
 PROPS["C14"] = dict(
     level="proof",
@@ -85,4 +85,55 @@ PROPS["C12"] = dict(
     exhaustive_note="segment pairs on the stated lattice are enumerated completely",
     trusted_base=["Model/LineInter.v follows LineSegment::intersection_t / line_intersection_t statement by statement"],
     assumptions=["rational arithmetic in the theorems; on integer input every f64 intermediate before the final division is exact"],
+)
+
+PROPS["C11"] = dict(
+    level="proof",
+    level_text="Theorems (Props/C11.v) per coordinate over the rationals. Quadratic: the reported local extremum is a root of "
+               "the derivative in (0,1) and every such root is reported; no extremum => monotone on [0,1]; the exact range "
+               "contains every point of the curve and is attained (tight); the fast range contains the exact one; the "
+               "monotonic ranges chain from 0 to 1, every piece is x- and y-monotone and (clamp = identity) is exactly the "
+               "sub-range of the curve. Cubic: the reported local extrema are exactly the roots of the derivative in (0,1) "
+               "(given a correct square root of the discriminant), the exact range contains the curve, the fast range "
+               "(convex hull) contains the curve. Model compared with lyon_geom (f64) exactly on curves constructed with "
+               "dyadic extremum parameters; boxes of general f64 curves and arcs/paths are validated by dense sampling.",
+    level_note="Trusted: Coq kernel; cubic theorems assume the sqrt oracle returns a rational root of the discriminant "
+               "(perfect-square discriminants; irrational roots are outside the rational model); arc extrema, path-level "
+               "aabb and fit are validated numerically, not proved; rounding on general inputs not covered.",
+    technique="Coq proof (lra/nra over Q, Simpson identity for cubics) + exact differential correspondence via vm_compute",
+    coq_targets=["theories/Props/C11.vo", "theories/Run/Geom.vo"],
+    props_file="theories/Props/C11.v",
+    props_module="Props.C11",
+    harness=[dict(sub="c11", profile="debug")],
+    rule="quadratics with per-coordinate (from, ctrl, div) chosen so that extremum parameters are dyadic; cubics whose "
+         "derivative has chosen roots m/8 (incl. roots outside [0,1], double roots, linear derivative); plus random f64 "
+         "curves in general position checked by dense sampling (box contains / tight / fast contains / monotone pieces); "
+         "non-trivial = control points not all equal",
+    trusted_base=["Model/Bezier.v extremum/bounding-range functions follow quadratic_bezier.rs / cubic_bezier.rs"],
+    assumptions=["sqrt oracle correct at the discriminant (cubic theorems)", "rational arithmetic"],
+)
+
+PROPS["C18"] = dict(
+    level="proof",
+    level_text="Theorems (Props/C18.v): for every polygonal path and every point off the outline the coded accumulation "
+               "(test_segment with its early-outs and half-open rule) equals the signed crossing number wn; the hit test is "
+               "the fill rule applied to it; wn negates under reversal, is additive, translation invariant and is -1/0 "
+               "inside/outside the unit triangle (lyon's sign convention); the fan area equals the shoelace sum, negates "
+               "under reversal, its sign is the reported winding, and add_rectangle's point orders have the requested "
+               "sign. Tied to the code by exhaustive lattice polygons x all half-integer query points off the outline.",
+    level_note="Trusted: Coq kernel; that the crossing number equals the topological number of turns is anchored by lemmas "
+               "and checked per run against the angle-sum winding number (not proved in general); curved paths go through "
+               "flattening and are validated against a fine flattening away from the outline.",
+    technique="Coq proof (Q arithmetic, list induction) + exhaustive lattice correspondence via vm_compute",
+    coq_targets=["theories/Props/C18.vo", "theories/Run/C18.vo"],
+    props_file="theories/Props/C18.v",
+    props_module="Props.C18",
+    harness=[dict(sub="c18", profile="debug")],
+    rule="every closed polygon with 3 or 4 vertices on the 3x3 (quick) / 4x4 (thorough) lattice x every half-integer query "
+         "point of the bounding grid that is not on the outline; random multi-sub-path paths (open sub-paths implicitly "
+         "closed); shape helpers x requested winding; curved paths vs fine flattening; non-trivial = some query point has "
+         "non-zero winding",
+    exhaustive_note="polygons with 3 and 4 vertices on the stated lattice, all query points of the half-integer grid",
+    trusted_base=["Model/Winding.v follows hit_test.rs / area.rs / winding.rs on polygonal input"],
+    assumptions=["query points not on the outline", "rational arithmetic (on the lattice the f32 comparisons are exact)"],
 )
